@@ -268,6 +268,11 @@ func (w *WebsocketConnection) writeMessage(messageType int, data []byte) bool {
 	err := w.writeMessageWithoutErrorHandling(messageType, data)
 	if err != nil {
 		// ignore write errors if the connection got closed
+		// or is being closed by us (the close message has already been sent)
+		if w.isConnClosed() || errors.Is(err, websocket.ErrCloseSent) {
+			return false
+		}
+
 		w.closeWithError(err, "error writing to websocket: ")
 		logging.Log().Debug("WRITE ERROR: ", err)
 		return false
